@@ -2010,6 +2010,32 @@ def ob_coeff_unit_norm(kind, d, n):
                objzeros=("toqito.states.ghz",), extra=extra, tv=(kind == "ghz"), timeout_ms=30000)
 
 
+def history_obligations():
+    """round-6 seed: a constructor that accumulates into memoised arrays (list form of werner).  Every call below is made, its
+    result modified in place, and made again (props/common.HistoryTask); list forms are additionally repeated with a different
+    parameter in between."""
+    import toqito.matrices as Mx
+    import toqito.states as S
+    from props.common import HistoryTask
+    calls = [
+        ("werner(2, 1/4)", lambda: S.werner(2, 0.25)), ("werner(3, [1/4])", lambda: S.werner(3, [0.25])),
+        ("werner(2, [1/8]) ; werner(2, [1/4])", lambda: [S.werner(2, [0.125]), S.werner(2, [0.25])][1]),
+        ("werner(2, [.01,.02,.03,.04,.05])", lambda: S.werner(2, [0.01, 0.02, 0.03, 0.04, 0.05])),
+        ("isotropic(3, 1/4)", lambda: S.isotropic(3, 0.25)), ("bell(2)", lambda: S.bell(2)), ("gen_bell(1, 2, 3)", lambda: S.gen_bell(1, 2, 3)),
+        ("max_entangled(3)", lambda: S.max_entangled(3)), ("max_mixed(3)", lambda: S.max_mixed(3)), ("ghz(2, 3)", lambda: S.ghz(2, 3)),
+        ("ghz(2, 3, [1, 2])", lambda: S.ghz(2, 3, [1, 2])), ("w_state(3)", lambda: S.w_state(3)), ("dicke(3, 1)", lambda: S.dicke(3, 1)),
+        ("basis(3, 1)", lambda: S.basis(3, 1)), ("tile(2)", lambda: S.tile(2)), ("domino(3)", lambda: S.domino(3)), ("trine()", lambda: S.trine()),
+        ("bb84()", lambda: S.bb84()), ("horodecki(1/2, [3, 3])", lambda: S.horodecki(0.5, [3, 3])), ("brauer(2, 2)", lambda: S.brauer(2, 2)),
+        ("mutually_unbiased_basis(3)", lambda: S.mutually_unbiased_basis(3)), ("singlet(2)", lambda: S.singlet(2)),
+        ("pauli(2)", lambda: Mx.pauli(2)), ("pauli([1, 2])", lambda: Mx.pauli([1, 2])), ("pauli('X', True)", lambda: Mx.pauli("X", True)),
+        ("gen_pauli(1, 2, 3)", lambda: Mx.gen_pauli(1, 2, 3)), ("gell_mann(4)", lambda: Mx.gell_mann(4)), ("gen_gell_mann(1, 1, 3)", lambda: Mx.gen_gell_mann(1, 1, 3)),
+        ("gen_gell_mann(0, 2, 3)", lambda: Mx.gen_gell_mann(0, 2, 3)), ("fourier(3)", lambda: Mx.fourier(3)), ("hadamard(2)", lambda: Mx.hadamard(2)),
+        ("cnot()", lambda: Mx.cnot()), ("gen_pauli_x(3)", lambda: Mx.gen_pauli_x(3)), ("gen_pauli_z(3)", lambda: Mx.gen_pauli_z(3)),
+        ("cyclic_permutation_matrix(3)", lambda: Mx.cyclic_permutation_matrix(3)), ("standard_basis(3)", lambda: Mx.standard_basis(3)),
+    ]
+    return [HistoryTask("constructor.repeated_call_is_independent_of_what_the_caller_did_with_the_earlier_result", {"call": n}, f) for n, f in calls]
+
+
 # ================================================================================================
 def obligations(tier):
     import toqito.states as S
@@ -2110,4 +2136,5 @@ def obligations(tier):
            ("werner(2, [0.1, 0.2])", lambda: S.werner(2, [0.1, 0.2])), ("werner(2, [0.1]*4)", lambda: S.werner(2, [0.1] * 4))]
     for nm, f in rej:
         obs.append(rejects("constructor.rejects_documented_invalid_argument", {"call": nm}, f))
+    obs += history_obligations()
     return obs
